@@ -18,7 +18,7 @@ from .r18_evaluators import mul_degrees
 RULE = 'R06'
 TEXT = ('every lowering branch uses constr.multiplier exactly once, as input scaling only for '
         'homogeneous / quadratic letters, else as output or epigraph scaling')
-P = {'props': ['C06', 'C12']}
+P = {'props': ['C06', 'C12', 'C07']}
 HOMOGENEOUS = set('AMIEG') | set('SQ')
 
 
@@ -129,6 +129,36 @@ def letter_branches(fi):
     return out
 
 
+def _power_params(body):
+    """in the power-atom branch: the per-entry names of (p, q):  p, q = constr.params ; bd = np.broadcast(.., p, q) ;
+    for .. (idx, item_p, item_q) in enumerate(zip(*bd.iters))  ->  ('item_p', 'item_q'); or ('p', 'q') if scalars"""
+    pq = None
+    for st in body:
+        for n in ast.walk(st):
+            if isinstance(n, ast.Assign) and isinstance(n.targets[0], ast.Tuple) and len(n.targets[0].elts) == 2 \
+                    and ntext(n.value).endswith('.params') and all(isinstance(e, ast.Name) for e in n.targets[0].elts):
+                pq = (n.targets[0].elts[0].id, n.targets[0].elts[1].id)
+    if pq is None:
+        return None
+    for st in body:
+        for n in ast.walk(st):
+            if isinstance(n, ast.Call) and ntext(n.func) in ('np.broadcast', 'numpy.broadcast'):
+                args = [ntext(a) for a in n.args]
+                if pq[0] in args and pq[1] in args:
+                    ip, iq = args.index(pq[0]), args.index(pq[1])
+                    for m in ast.walk(st.__class__ and ast.Module(body=body, type_ignores=[])):
+                        if isinstance(m, ast.For):
+                            names = [x.id for x in ast.walk(m.target) if isinstance(x, ast.Name)]
+                            flat = None
+                            for t in ast.walk(m.target):
+                                if isinstance(t, ast.Tuple) and len(t.elts) == len(args) and \
+                                        all(isinstance(e, ast.Name) for e in t.elts):
+                                    flat = [e.id for e in t.elts]
+                            if flat is not None:
+                                return (flat[ip], flat[iq])
+    return pq
+
+
 def classify(body):
     mod = ast.Module(body=body, type_ignores=[])
     par = {}
@@ -147,6 +177,9 @@ def classify(body):
                     kind = 'in'
                 elif 'aux' in st:
                     kind = 'aux'
+            elif isinstance(p, ast.BinOp) and isinstance(p.op, ast.Pow) and p.left is n:
+                # multiplier ** e: scaling of the argument by a power of the multiplier (valid iff e * degree == 1)
+                kind = 'inpow:' + ntext(p.right)
             elif isinstance(p, ast.BinOp) and isinstance(p.op, ast.Div) and p.right is n:
                 gp = par.get(id(p))
                 if isinstance(gp, ast.BinOp) and isinstance(gp.op, ast.Mult):
@@ -183,6 +216,20 @@ def run(repo):
                                  % (len(uses), uses))
                 else:
                     k = uses[0]
+                    if k.startswith('inpow:'):
+                        # c*|x|^(p/q) == |c^(q/p) x|^(p/q): only the exponent q/p is right for the power atom
+                        e = k[6:].replace(' ', '').strip('()')
+                        if letter != 'T':
+                            raise AnalysisError('%s, branch %s: the argument is scaled by multiplier ** (%s), '
+                                                'which the rule only interprets for the power atom' % (fq, letter, e))
+                        pq = _power_params(body)
+                        if pq is None:
+                            raise AnalysisError('%s, branch T: names of the exponent pair (p, q) not recovered' % fq)
+                        if e != '%s/%s' % (pq[1], pq[0]):
+                            probs.append('scales the argument by multiplier ** (%s); for |x|**(p/q) the factor that '
+                                         'equals multiplying the atom by c is c ** (q/p) = multiplier ** (%s/%s)'
+                                         % (e, pq[1], pq[0]))
+                        k = 'in-ok'
                     if k == 'other':
                         raise AnalysisError('%s, branch %s: constr.multiplier is used in a form the rule '
                                             'does not interpret' % (fq, letter))
